@@ -115,11 +115,28 @@ impl Runner for SubprocessRunner {
         // wait for the process to finish and handle the result
         let (stdout, stderr, exit_code) = match comm.read() {
             // successs! we are happy!
-            Ok((stdout, stderr)) => (
-                stdout,
-                stderr,
-                process.wait().context("capture process exit")?.into(),
-            ),
+            Ok((stdout, stderr)) => {
+                // .. unless the shell has only closed its streams and keeps running:
+                // the time limit applies to that, too
+                let status = match testcase.config.timeout {
+                    Some(timeout) => process
+                        .wait_timeout(timeout.saturating_sub(started.elapsed()))
+                        .context("capture process exit")?,
+                    None => Some(process.wait().context("capture process exit")?),
+                };
+                match status {
+                    Some(status) => (stdout, stderr, status.into()),
+                    None => {
+                        let _ = process.kill();
+                        let _ = process.wait();
+                        (
+                            stdout,
+                            stderr,
+                            OutputExitStatus::Timeout(testcase.config.timeout.unwrap_or_default()),
+                        )
+                    }
+                }
+            }
 
             // bummer, a sad thing happened
             Err(err) => {
